@@ -173,11 +173,52 @@ def classify_switch(eng, fd, bi):
     return _classify_value(eng, fd, discr['pl'], bi, line, 0)
 
 
-def _classify_value(eng, fd, pl, bi, line, depth):
+def _payload_gate(eng, fd, call, bi, line, depth):
+    """the switch inspects the *value* carried by Ok(..) / Some(..) of a local call (`match check()? { true => .. }`, `Ok(true) => ..`): the
+    condition is whatever the callee computes that value from.  Returns a `multi` gate of the classified payload operands, lifted to this body."""
+    tgt = local_target(eng, call)
+    cfd = eng.fndep(tgt) if tgt else None
+    if cfd is None or depth > 6:
+        return None
+    subs = []
+    for cbi, blk in enumerate(cfd.body.blocks):
+        if blk['cleanup']:
+            continue
+        for st in blk['stmts']:
+            if st['k'] == 'assign' and st['dst']['l'] == 0 and not st['dst'].get('p') and st['rv']['k'] == 'agg' and st['rv'].get('variant') in ('Ok', 'Some') \
+                    and st['rv']['ops'] and st['rv']['ops'][0]['k'] in ('copy', 'move'):
+                g = _classify_value(eng, cfd, st['rv']['ops'][0]['pl'], cbi, st.get('line', line), depth + 1)
+                stack = [g]
+                while stack:
+                    g2 = stack.pop()
+                    if g2.kind == 'multi':
+                        stack.extend(g2.args or [])
+                        continue
+                    ops = []
+                    for o in g2.operands:
+                        oo = set()
+                        for a in o:
+                            oo |= fd._inst_atom(a, call['args'])
+                        ops.append(oo)
+                    ng = Gate(g2.kind, g2.what, ops, g2.fn, g2.block, g2.line, g2.callee, g2.args if g2.kind == 'deleg' else None, None, g2.const_ops)
+                    if g2.kind != 'deleg':
+                        subs.append(ng)
+    if not subs:
+        return None
+    g = Gate('multi', 'payload-of:' + tgt, [set().union(*[x.all_atoms() for x in subs])], fd.body.path, bi, line)
+    g.args = subs
+    return g
+
+
+def _classify_value(eng, fd, pl, bi, line, depth, payload=False):
     body = fd.body
     l = pl['l']
     if depth > 12:
         return Gate('opaque', 'deep', [fd.read_place(pl)], body.path, bi, line)
+    # is the inspected value the payload of a Result / Option (and not its discriminant)?
+    pf = [p for p in pl.get('p', []) if p['k'] == 'field' and str(p.get('adt', '')).startswith(('std::result', 'std::option', 'std::ops::ControlFlow'))]
+    if pf and str(pf[-1].get('ty', '')) in ('bool', 'usize', 'u64', 'u32', 'u8'):
+        payload = True
     if fd.is_param(l) and all(p['k'] in ('deref', 'downcast') for p in pl.get('p', [])) and \
             body.local_ty(l).lstrip('&').startswith(('std::result::Result<', 'std::option::Option<')):
         g = Gate('match', 'param', [fd.read_place(pl)], body.path, bi, line)
@@ -232,18 +273,22 @@ def _classify_value(eng, fd, pl, bi, line, depth):
         if rv['k'] == 'discr':
             return _classify_value(eng, fd, rv['pl'], bi, line, depth + 1)
         if rv['k'] in ('use',) and rv['op']['k'] in ('copy', 'move'):
-            return _classify_value(eng, fd, rv['op']['pl'], bi, line, depth + 1)
+            return _classify_value(eng, fd, rv['op']['pl'], bi, line, depth + 1, payload)
         if rv['k'] in ('ref',):
-            return _classify_value(eng, fd, rv['pl'], bi, line, depth + 1)
+            return _classify_value(eng, fd, rv['pl'], bi, line, depth + 1, payload)
         return Gate('match', 'value', [fd.read_place(pl)], body.path, bi, line)
     if kind == 'call':
         callee = x.get('callee') or ''
         tgt = local_target(eng, x)
         if tgt is not None:
+            if payload:
+                pg = _payload_gate(eng, fd, x, bi, x.get('line', line), depth)
+                if pg is not None:
+                    return pg
             return Gate('deleg', tgt, [fd.read_op(a) for a in x['args']], body.path, bi, x.get('line', line),
                         callee=tgt, args=x['args'])
         if callee in PASS_THROUGH and x['args'] and x['args'][0]['k'] in ('copy', 'move'):
-            return _classify_value(eng, fd, x['args'][0]['pl'], bi, line, depth + 1)
+            return _classify_value(eng, fd, x['args'][0]['pl'], bi, line, depth + 1, payload and callee in ('std::ops::Try::branch', 'std::result::Result::<T, E>::map_err'))
         ops = []
         for a in x['args']:
             ops.append(fd.read_op(a))
